@@ -1,57 +1,44 @@
-(* CopyImplDst: the protocol LTS of Model/CopyImpl.v together with the DESTINATION store.
-
-   The protocol model leaves the outcome of dst.Exists to the environment and does not say what a
-   push does.  Here the destination content d : node -> bool is part of the state:
-     - dst.Exists answers what the destination holds (LExists t ExTrue needs d node, ExFalse needs
-       its absence; ExFail - the check itself fails - is always possible);
-     - a push that returns nil stores the node (copyNode: dst.Push returned nil);
-     - a push may also fail AFTER the content was stored (DPushStoredFail: the destination stored
-       the blob, then Push / a PostCopy callback reported an error) or before (DL (LPush t false));
-     - nothing else writes the destination, nothing deletes from it (standing hypothesis of C02:
-       during the call the destination is written only by the call itself).
-   Everything else is the step function of CopyImpl, unchanged: dstep projects to step, so every
-   invariant and theorem of the protocol model holds for the combined system.  No proofs here. *)
+(* CopyImplDst -- the protocol LTS of Model/CopyImpl.v with a DESTINATION.
+   CopyImpl leaves the outcome of dst.Exists an unconstrained choice and has no destination content.
+   This wrapper adds it without touching CopyImpl: a state is a protocol state plus the set of nodes
+   the destination holds;
+     - dst.Exists answers true exactly for the nodes held          (LExists t ExTrue / ExFalse)
+     - a successful copyNode stores its node                       (LPush t true)
+     - a failing copyNode may have stored it before failing        (DPushFailStored t = LPush t false + store)
+   every other label leaves the destination alone.  Link-closure of the destination at every reachable
+   state of THIS system is the property C02 at the granularity of the protocol (all interleavings of
+   tasks, permits, done channels, cancel-cause contexts; all fault and cancellation choices).
+   No proofs in this file. *)
 From Coq Require Import List Arith Bool.
 From Oras Require Import Model.CopyImpl.
 Import ListNotations.
 
-Inductive dlabel :=
-| DL (l : label)
-| DPushStoredFail (t : nat).        (* copyNode stored the content and then returned an error *)
+Record dstate := mkD { ds : state; dd : list nat }.
 
-Definition base_label (dl : dlabel) : label :=
-  match dl with DL l => l | DPushStoredFail t => LPush t false end.
+Definition dmem (n : nat) (l : list nat) : bool := existsb (Nat.eqb n) l.
 
-Record dstate := mkD { d_st : state; d_dst : nat -> bool }.
+Inductive dlabel := DL (l : label) | DPushFailStored (t : nat).
 
-(* the node a label stores into the destination, if any *)
-Definition stores (s : state) (dl : dlabel) : option nat :=
-  match dl with
-  | DL (LPush t true) | DPushStoredFail t => Some (t_node (tasks s t))
-  | _ => None
-  end.
-
-Definition exists_guard (x : dstate) (dl : dlabel) : bool :=
-  match dl with
-  | DL (LExists t ExTrue) => d_dst x (t_node (tasks (d_st x) t))
-  | DL (LExists t ExFalse) => negb (d_dst x (t_node (tasks (d_st x) t)))
-  | _ => true
-  end.
+(* the protocol label underneath *)
+Definition dlab (dl : dlabel) : label :=
+  match dl with DL l => l | DPushFailStored t => LPush t false end.
 
 Section Graph.
 Variable succ : nat -> list nat.
 
 Definition dstep (x : dstate) (dl : dlabel) : option dstate :=
-  if exists_guard x dl then
-    match step succ (d_st x) (base_label dl) with
-    | Some s' =>
-        Some (mkD s' (match stores (d_st x) dl with
-                      | Some n => upd (d_dst x) n true
-                      | None => d_dst x
-                      end))
-    | None => None
-    end
-  else None.
+  let node t := t_node (tasks (ds x) t) in
+  match step succ (ds x) (dlab dl) with
+  | None => None
+  | Some s' =>
+      match dl with
+      | DL (LExists t ExTrue) => if dmem (node t) (dd x) then Some (mkD s' (dd x)) else None
+      | DL (LExists t ExFalse) => if dmem (node t) (dd x) then None else Some (mkD s' (dd x))
+      | DL (LPush t true) => Some (mkD s' (node t :: dd x))
+      | DL _ => Some (mkD s' (dd x))
+      | DPushFailStored t => Some (mkD s' (node t :: dd x))
+      end
+  end.
 
 Fixpoint drun (x : dstate) (ls : list dlabel) : option dstate :=
   match ls with
@@ -59,39 +46,24 @@ Fixpoint drun (x : dstate) (ls : list dlabel) : option dstate :=
   | l :: r => match dstep x l with Some x' => drun x' r | None => None end
   end.
 
-Definition dcandidates (x : dstate) : list dlabel :=
-  map DL (candidates (d_st x)) ++ map DPushStoredFail (seq 0 (ntasks (d_st x))).
-Definition denabled (x : dstate) : list dlabel :=
-  filter (fun l => is_some (dstep x l)) (dcandidates x).
-
-(* deterministic scheduler for the Examples / self-tests *)
-Fixpoint dsched (pick : list dlabel -> option dlabel) (fuel : nat) (x : dstate) (acc : list dlabel) : dstate * list dlabel :=
+(* a deterministic scheduler that respects the destination (used by the Examples): the first enabled label
+   satisfying [prefer], else the first enabled fault-free protocol label, whose wrapper step exists *)
+Fixpoint dsched (prefer : label -> bool) (fuel : nat) (x : dstate) (acc : list dlabel) : dstate * list dlabel :=
   match fuel with
   | O => (x, rev acc)
   | S k =>
-      match pick (denabled x) with
+      let ok (f : label -> bool) (l : label) := f l && is_some (dstep x (DL l)) in
+      let en := enabled succ (ds x) in
+      match (match find (ok prefer) en with Some l => Some l | None => find (ok progress_label) en end) with
       | None => (x, rev acc)
-      | Some l => match dstep x l with Some x' => dsched pick k x' (l :: acc) | None => (x, rev acc) end
+      | Some l => match dstep x (DL l) with Some x' => dsched prefer k x' (DL l :: acc) | None => (x, rev acc) end
       end
   end.
 
 End Graph.
 
-(* fault choices of the combined system: those of the protocol plus the late push failure *)
-Definition dis_fault (dl : dlabel) : bool := is_fault (base_label dl).
-Definition dprogress_label (dl : dlabel) : bool := negb (dis_fault dl).
+Definition dinit (K : nat) (ext : bool) (roots d0 : list nat) : dstate := mkD (init K ext roots) d0.
 
-(* the call starts on a destination holding d0 *)
-Definition dinit (K : nat) (ext : bool) (roots : list nat) (d0 : nat -> bool) : dstate :=
-  mkD (init K ext roots) d0.
-
-(* membership in a finite initial content, for the runner *)
-Definition dst_of_list (l : list nat) : nat -> bool := fun n => existsb (Nat.eqb n) l.
-
-Definition dpick_progress (ls : list dlabel) : option dlabel := find dprogress_label ls.
-(* prefers a push that stores and then fails *)
-Definition dpick_late (ls : list dlabel) : option dlabel :=
-  match find (fun l => match l with DPushStoredFail _ => true | _ => false end) ls with
-  | Some l => Some l
-  | None => find dprogress_label ls
-  end.
+(* link-closure, executable *)
+Definition dclosedb (succ : nat -> list nat) (d : list nat) : bool :=
+  forallb (fun n => forallb (fun m => dmem m d) (succ n)) d.
